@@ -11,7 +11,7 @@ from vf.core import R
 STOCH = [False, True]
 DELAY = [None, False, True]
 SAFE = [False, True]
-VOLUME = ["off", "flag", 1.0, 2.5, "object"]
+VOLUME = ["off", "flag", 1.0, 2.5, "object", "off_numpy_bool", "flag_numpy_bool"]
 DF = [True, False]
 SOURCE = ["model", "interface", "safe_interface"]
 OPTION_WORDS = ("Model", "Interface", "delay", "volume", "stochastic", "safe", "option", "CSimInterface")
@@ -59,6 +59,10 @@ def check(case):
         kwargs["volume"] = False
     elif vol == "flag":
         kwargs["volume"] = True
+    elif vol == "off_numpy_bool":          # the flag as numpy produces it, e.g. (arr > x).any()
+        kwargs["volume"] = np.bool_(False)
+    elif vol == "flag_numpy_bool":
+        kwargs["volume"] = np.bool_(True)
     elif vol == "object":
         v = Volume()
         v.py_set_volume(1.5)
@@ -79,9 +83,10 @@ def check(case):
         else:
             kwargs["Interface"] = SafeModelCSimInterface(M)
     py_seed_random(case["seed"])
-    volume_used = vol != "off" and (opt["stochastic"] or bool(opt["delay"]))
-    feat = f"delay={bool(opt['delay'])},volume={'on' if vol != 'off' else 'off'}"
-    res.nontrivial = bool(opt["delay"]) or vol != "off" or opt["source"] != "model"
+    vol_off = vol in ("off", "off_numpy_bool")
+    volume_used = (not vol_off) and (opt["stochastic"] or bool(opt["delay"]))
+    feat = f"delay={bool(opt['delay'])},volume={'off' if vol_off else 'on'}"
+    res.nontrivial = bool(opt["delay"]) or (not vol_off) or opt["source"] != "model"
     res.label("delay" if opt["delay"] else "nodelay", f"volume:{vol}", f"source:{opt['source']}")
     try:
         with specmod.quiet():
@@ -155,7 +160,8 @@ def check(case):
         if volcol.shape[0] != nrows or not np.all(volcol > 0):
             res.fail(("volume_column", feat), options=opt, got=[float(x) for x in volcol[:6]])
             return res
-    vol0 = {"off": 1.0, "flag": 1.0, "object": 1.5, "dividing_object": 1.5}.get(vol, vol if not isinstance(vol, str) else 1.0)
+    vol0 = {"off": 1.0, "flag": 1.0, "object": 1.5, "dividing_object": 1.5, "off_numpy_bool": 1.0,
+            "flag_numpy_bool": 1.0}.get(vol, vol if not isinstance(vol, str) else 1.0)
     exp0 = _apply_rules_ref(sp, sp["x0"], t=float(tp[0]), vol=float(vol0) if volume_used else 1.0)
     for i, s in enumerate(species_order):
         if abs(data[0, i] - exp0[s]) > 1e-9 * (1 + abs(exp0[s])):
